@@ -67,9 +67,9 @@ def reportLine (w : World) : String :=
   let pend := (List.range w.reqs.size).filter fun i => !(w.reqs.getD i default).done
   let parts := parts ++ [s!"P:{showInts pend}"]
   -- the hypothesis of `c12_discard_closes_partial`, evaluated in every world the correspondence visits:
-  -- a registered session has a current transport, not closed, and is past `opening` (the harness never prints this token)
+  -- a registered session has a current transport and it is not closed (the harness never prints this token)
   let linkBad := w.registry.filter fun sid =>
-    !(decide ((w.sock sid).tr < w.trs.size) && decide ((w.tr (w.sock sid).tr).rs ≠ .closed) && decide ((w.sock sid).rs ≠ .opening))
+    !(decide ((w.sock sid).tr < w.trs.size) && decide ((w.tr (w.sock sid).tr).rs ≠ .closed))
   let parts := if linkBad.isEmpty then parts else parts ++ [s!"LINK!:{showInts linkBad}"]
   " ".intercalate parts
 
